@@ -22,3 +22,29 @@ pub assume_specification<T: Ord>[core::cmp::min::<T>](a: T, b: T) -> (r: T)
     ensures r == a || r == b,
         <T as vstd::std_specs::cmp::OrdSpec>::cmp_spec(&a, &b) is Greater ==> r == b,
         !(<T as vstd::std_specs::cmp::OrdSpec>::cmp_spec(&a, &b) is Greater) ==> r == a;
+
+// ---- std methods that realistic edits reach for and vstd does not specify (shared by every unit) ----------------------------
+// Option::filter: the predicate's own contract decides which way it goes
+pub assume_specification<T, P: FnOnce(&T) -> bool> [std::option::Option::<T>::filter] (o: std::option::Option<T>, p: P) -> (r: std::option::Option<T>)
+    requires o is Some ==> call_requires(p, (&o->0,)),
+    ensures o is None ==> r is None,
+        o is Some ==> ((r == o && call_ensures(p, (&o->0,), true)) || (r is None && call_ensures(p, (&o->0,), false)));
+// Option::is_some_and: false for None, otherwise what the closure answers
+pub assume_specification<T, F: FnOnce(T) -> bool>[Option::<T>::is_some_and](a: Option<T>, f: F) -> (r: bool)
+    requires a is Some ==> f.requires((a->0,)),
+    ensures a is None ==> !r, a is Some ==> f.ensures((a->0,), r);
+// Result::or / Result::and
+pub assume_specification<T, E, F>[Result::<T, E>::or](a: Result<T, E>, b: Result<T, F>) -> (r: Result<T, F>)
+    ensures a is Ok ==> r is Ok && r->Ok_0 == a->Ok_0, a is Err ==> r == b;
+pub assume_specification<T, E, U>[Result::<T, E>::and](a: Result<T, E>, b: Result<U, E>) -> (r: Result<U, E>)
+    ensures a is Ok ==> r == b, a is Err ==> r is Err;
+// Result::unwrap_or_default: the Ok value; nothing is said about the default
+pub assume_specification<T: Default, E>[Result::<T, E>::unwrap_or_default](r: Result<T, E>) -> (o: T)
+    ensures r is Ok ==> o == r->Ok_0;
+// str::to_lowercase / to_uppercase / trim: uninterpreted functions of the text (nothing is provable equal to the text itself)
+pub uninterp spec fn str_lower(s: Seq<char>) -> Seq<char>;
+pub uninterp spec fn str_upper(s: Seq<char>) -> Seq<char>;
+pub uninterp spec fn str_trimmed(s: Seq<char>) -> Seq<char>;
+pub assume_specification[str::to_lowercase](s: &str) -> (r: String) ensures r@ == str_lower(s@);
+pub assume_specification[str::to_uppercase](s: &str) -> (r: String) ensures r@ == str_upper(s@);
+pub assume_specification[str::trim](s: &str) -> (r: &str) ensures r@ == str_trimmed(s@);
